@@ -214,6 +214,8 @@ func runC09(c *Ctx) {
 		classes = append(classes, cl)
 	}
 	sort.Strings(classes)
+	runCloseOnce(c, an)
+	runSendAfterClose(c, an)
 	for _, cl := range classes {
 		r.Add(core.Obligation{Rule: "lock-classes", Key: "lock-classes " + cl, Func: "-", Status: core.Proved, Basis: "lock class found"})
 	}
